@@ -23,6 +23,15 @@ CLAIMED = {
         note="Not a proof of absence of UB: arithmetic overflow, use before prepare/compute, pointer lifetimes and UB outside these mechanisms are not decided. Trusts Eigen/libstdc++ semantics; one class-invariant assumption listed in checks/c17.py.",
         technique="typestate must-dataflow over clang CFG with interprocedural summaries + guard/extent entailment (difference-bound closure)",
         ref="DESIGN.md §3 C17"),
+    "C06": dict(
+        text="Static SPMD analysis of every library function that has a communicator in scope: (R1) all collectives / point-to-point calls use the given communicator or a split of it (no world communicator); "
+             "(R2) the two arms of every rank-dependent branch issue the same collective sequence (operation, communicator, payload, count after local resize, root under the branch equality), loops around collectives "
+             "are rank-invariant, message-driven dispatch loops are collective-free; (R3) tables reduced to the root of a sub-communicator are published from that root; (R4) fields written by a distributed part "
+             "computation (transitive effect analysis) are all transmitted / set on the other ranks; (R5) the OpenMP parallel-for body writes only its own slot and calls only const, side-effect-free code; (R6) MPI buffer extents.",
+        note="Quantifies over all ranks and both build configurations, but NOT over message schedules: termination of the dispatcher and rounding-level equality of results are not decided. Trusts Boost.MPI semantics (split keeps world-rank order; "
+             "serialised broadcasts resize the receiver) and replication of the containers iterated around collectives.",
+        technique="SPMD collective matching + rank-taint + effect/sync-set agreement over clang AST/CFG (custom libTooling extractor, Python engines)",
+        ref="DESIGN.md §3 C06"),
 }
 
 NOT_YET = {}
